@@ -170,6 +170,15 @@ class Prop(object):
                                 m2 = pgpy.PGPMessage.from_blob(form)
                                 r.transitions += 1
                                 p2 = self._same(m, m2)
+                                # the content handed back is the content that was put in (text under the message's character encoding)
+                                got_c = m2.message
+                                if isinstance(got_c, str):
+                                    want_c = content if isinstance(content, str) else content.decode('utf-8')      # PGPMessage.new reads bytes given for a text format as UTF-8
+                                else:
+                                    want_c = content if isinstance(content, (bytes, bytearray)) else content.encode('utf-8')
+                                    got_c = bytes(got_c)
+                                if got_c != want_c and not p2:
+                                    p2 = ['content comes back as %r..., put in %r...' % (got_c[:16], want_c[:16])]
                                 if bytes(m2) != blob and not p2:
                                     p2 = ['re-export differs']
                                 if p2:
